@@ -9,6 +9,7 @@ import (
 	"context"
 	"fmt"
 	"io"
+	"os"
 	"runtime"
 	"sort"
 	"strings"
@@ -91,7 +92,7 @@ func (c *simCluster) connInfo() string {
 	defer c.mu.Unlock()
 	var out []string
 	for _, s := range c.conns {
-		out = append(out, fmt.Sprintf("%d.%d.%d.%d.%d", addrIdx(s.addr), s.id, atomic.LoadInt32(&s.failed),
+		out = append(out, fmt.Sprintf("%d.%d.%d.%d.%d", addrIdx(s.addr), s.id, atomic.LoadInt32(&s.deadOK),
 			atomic.LoadInt32(&s.closed), atomic.LoadInt32(&s.dials)))
 	}
 	if len(out) == 0 {
@@ -334,6 +335,7 @@ func concScenario(rng *RNG) string {
 					if s.addr == a {
 						atomic.StoreInt32(&s.closed, 1)
 						atomic.StoreInt32(&s.failed, 1)
+						atomic.StoreInt32(&s.deadOK, 1)
 					}
 				}
 			case 4:
@@ -427,6 +429,24 @@ var waitStates = []waitState{
 		}
 	}},
 	{"dial-blocked", func(c *simCluster) { c.dialHold = make(chan struct{}) }},
+}
+
+// closeOnlyStates are used by the Close scenarios only.
+var closeOnlyStates = []waitState{
+	// a request is answered with a server-class exception (e.g. RegionServerStoppedException)
+	// over a connection that itself stays healthy; the retry then succeeds on a new connection
+	{"after-server-exception", func(c *simCluster) {
+		for _, r := range c.regions {
+			if string(r.fq()) == "ns:t" {
+				r.faults = append(r.faults, "REQ:connErr")
+			}
+		}
+	}},
+	// ZooKeeper answers the pending "where is meta" lookup only after Close has returned
+	{"zk-slow", func(c *simCluster) {
+		c.zkHold = make(chan struct{})
+		c.metaAddr = "meta:2" // the cached meta connection now answers NotServing: meta is re-resolved
+	}},
 }
 
 func init() { excClass["ok-probe"] = "" }
@@ -605,6 +625,10 @@ func closeScenario(state *waitState) string {
 		close(c.dialHold)
 		c.dialHold = nil
 	}
+	if c.zkHold != nil {
+		close(c.zkHold)
+		c.zkHold = nil
+	}
 	c.mu.Unlock()
 	time.Sleep(150 * time.Millisecond)
 	c.mu.Lock()
@@ -658,6 +682,24 @@ func init() {
 			}
 		})
 	}
+	// C01, wire level: the same sequential scenarios; the monitor checks that every request that
+	// reaches a regionserver names a region hosted there whose range contains the key, and that
+	// the answer comes from the owner. (The function-level part of C01 is in c01.go.)
+	c01fn := props["C01"]
+	props["C01"] = func(tier string, seed uint64, out *Out) {
+		if os.Getenv("VERIF_SHARD") == "" && c01fn != nil {
+			c01fn(tier, seed, out)
+		}
+		n := 200
+		if tier != "quick" {
+			n = 4000
+		}
+		runSharded("C01", tier, seed, out, 16, func(shard, nsh int, emit func(string)) {
+			for i := shard; i < n; i += nsh {
+				emit(seqScenario(NewRNG(seed, fmt.Sprintf("c01w-%d", i)), "c01w"))
+			}
+		})
+	}
 	props["C20"] = func(tier string, seed uint64, out *Out) {
 		n := 300
 		if tier != "quick" {
@@ -700,8 +742,8 @@ func init() {
 	props["C19"] = func(tier string, seed uint64, out *Out) {
 		var jobs []func() string
 		jobs = append(jobs, func() string { return closeScenario(nil) })
-		for i := range waitStates {
-			st := waitStates[i]
+		for _, st := range append(append([]waitState{}, waitStates...), closeOnlyStates...) {
+			st := st
 			jobs = append(jobs, func() string { return closeScenario(&st) })
 		}
 		runSharded("C19", tier, seed, out, 8, func(shard, nsh int, emit func(string)) {
